@@ -21,6 +21,10 @@ LEVEL_TEXT = ("static: decides the call-protocol clauses of C10 (owners, close o
               "per-socket accounting, legacy enumerator agreement) on every CFG path, including OOM and failure unwinds the suite "
               "marks LCOV_EXCL; does not decide equality of reported descriptor sets over runtime histories"
               " Also decides that the connection a query is written to comes only from the limit-testing lookup or a fresh open, and that ares_socket_open hands out or closes every descriptor it obtained.")
+# fifth-round additions
+TECHNIQUE += "; " + 'branch-atom and fact comparison of the write-interest test in both legacy enumerators'
+LEVEL_TEXT += " " + '(LEGACY) the write interest reported by ares_fds and ares_getsock depends on STATE_WRITE alone, for UDP as for TCP.'
+EXPLANATION += " The write interest both enumerators report depends on the STATE_WRITE flag alone, for UDP connections as for TCP ones."
 LEVEL_NOTE = "trusts clang's CFG and the extractor; user socket functions assumed to behave like the defaults; configuration linux+threads"
 DESIGN_REF = "DESIGN.md §6/C10"
 
